@@ -2,7 +2,7 @@
 from collections import Counter
 
 from .. import hooks
-from ..gen import big_n, canon, mk_event, rand_grid, rand_nonoverlapping
+from ..gen import big_n, canon, exact, mk_event, rand_grid, rand_nonoverlapping
 from ..model import allen, norm, pairwise_disjoint, subtract, union
 from . import _tx
 from ._tx import exc_viol, is_event_list, iv, snap, tmod, unmodified
@@ -38,7 +38,7 @@ def pre_unol(events1, events2):
 
 def _k(e):
     s, t = iv(e)
-    return (s, t, canon(e.data), e.id)
+    return (s, t, exact(e.data), e.id)
 
 
 def post_unol(old, oldkw, result, exc, after, afterkw):
@@ -58,7 +58,7 @@ def post_unol(old, oldkw, result, exc, after, afterkw):
         if t < s:
             v.append(("unol-negative-piece", f"{(s, t)} {ctx}"))
             continue
-        srcs = [i for i, e in enumerate(two) if iv(e)[0] <= s and t <= iv(e)[1] and canon(e.data) == data]
+        srcs = [i for i, e in enumerate(two) if iv(e)[0] <= s and t <= iv(e)[1] and exact(e.data) == data]
         if not srcs:
             v.append(("unol-piece-without-source", f"piece={(s, t, data)} {ctx}"))
             continue
@@ -106,7 +106,8 @@ def teardown(ctx):
         mon.uninstall()
 
 
-_DATA = [{"label": "a"}, {"label": "b"}, {}, {"app": "x", "n": [1, {"k": None}]}]
+_DATA = [{"label": "a"}, {"label": "b"}, {}, {"app": "x", "n": [1, {"k": None}]}, {"label": "a", "cursor": {"$tuple": [12, 40]}},
+         {"label": "a", "cursor": [12, 40]}, {"size": {"wh": {"$tuple": [80, 24]}}, "hist": [{"$tuple": ["a", 1]}]}]
 
 
 def _specs(rng, ivs, base, unit, idbase):
